@@ -1,10 +1,670 @@
-// Package c13 holds the runtime monitors for property C13 (see DESIGN.md section 4).
+// Package c13 holds the runtime monitors for property C13: parsing is a pure,
+// re-entrant function of its input (see DESIGN.md section 4).
+//
+// Every scenario first computes, on one goroutine in a quiescent process, the
+// result of every text (rendered tree or error string) and of every
+// evaluation job; then 2..16 goroutines parse the same texts concurrently
+// (with and without a runtime provider, with Validate) while other goroutines
+// run evaluations that parse at run time (string interpolation, imports,
+// sinks on pool workers, a debugger inject loop). Oracles: each concurrent
+// result equals the sequential one; the process survives (the driver turns
+// `fatal error: concurrent map ...` into a verdict using the progress slot);
+// in the -race build the driver applies cfg race_rule to the reports.
+//
+// Streams: "noif" scenarios contain no if/for anywhere (texts, imported files,
+// interpolations), so the known grammar-table defect cannot disturb them and
+// any other re-entrancy problem stays visible; "canary" (small, fixed texts)
+// and "mixed" (full corpus) scenarios parse if/for concurrently. Scenario
+// indexes are even for noif and odd for canary/mixed, so that with an even
+// number of batches a process runs either the one or the other kind.
 package c13
 
-import "verif/harness/core"
+import (
+	"fmt"
+	"os"
+	"runtime"
+	"strings"
+	"sync"
+	"sync/atomic"
+	"time"
+
+	"github.com/krotik/ecal/interpreter"
+	"github.com/krotik/ecal/parser"
+	"github.com/krotik/ecal/util"
+
+	"verif/harness/core"
+)
 
 func init() { core.Register("C13", Run) }
 
+const (
+	streamNoif   = "noif"
+	streamCanary = "canary"
+	streamMixed  = "mixed"
+
+	// a process that lost this many if/for scenarios to a fatal error stops
+	// running further ones (the driver abandons a batch after 6 deaths and
+	// with it everything the batch observed)
+	maxDeaths = 3
+)
+
+const (
+	modeParse    = 0 // parser.Parse
+	modeRuntime  = 1 // parser.ParseWithRuntime with a shared provider
+	modeValidate = 2 // ... followed by Validate
+)
+
+var modeNames = []string{"Parse", "ParseWithRuntime", "ParseWithRuntime+Validate"}
+
+type textCase struct {
+	name  string
+	src   string
+	kind  string // "valid" or the injected error
+	ifFor bool
+	leaky bool // the parse leaves the lexer goroutine behind (error far from the end)
+	want  [3]string
+}
+
+const (
+	roleParse = iota
+	roleRuntime
+	roleValidate
+	roleJob
+)
+
+type role struct {
+	kind int
+	job  *evalJob
+}
+
+func (r role) String() string {
+	if r.kind == roleJob {
+		return r.job.kind
+	}
+	return modeNames[r.kind]
+}
+
+type scen struct {
+	c      *core.Ctx
+	stream string
+	idx    int
+	ifFor  bool
+	texts  []*textCase
+	roles  []role
+	jobs   []*evalJob
+	reps   int
+	erp    *interpreter.ECALRuntimeProvider
+
+	active     int64
+	maxActive  int64
+	overlapped int64
+	leakBudget int64
+	nParse     int64
+	nErrRes    int64
+	nTreeRes   int64
+	nValidate  int64
+	nRtNodes   int64
+	nJobRuns   [4]int64
+	nInjects   int64
+
+	mu       sync.Mutex
+	reported map[string]bool
+
+	// cold: this is the first scenario of the process. The concurrent phase
+	// runs BEFORE the sequential results are computed, so that state which is
+	// initialised lazily on first use is first used concurrently; results are
+	// kept and compared afterwards.
+	cold     bool
+	deferred map[deferredResult]int
+}
+
+type deferredResult struct {
+	text *textCase
+	job  *evalJob
+	mode int
+	got  string
+}
+
+func (sc *scen) checkParse(t *textCase, mode int, got string, g int) {
+	if sc.cold {
+		sc.mu.Lock()
+		if _, ok := sc.deferred[deferredResult{t, nil, mode, got}]; !ok {
+			sc.deferred[deferredResult{t, nil, mode, got}] = g
+		}
+		sc.mu.Unlock()
+		return
+	}
+	if got != t.want[mode] {
+		sc.reportParseDiff(t, mode, got, g)
+	}
+}
+
+func (sc *scen) checkJob(j *evalJob, got string, g int) {
+	if sc.cold {
+		sc.mu.Lock()
+		if _, ok := sc.deferred[deferredResult{nil, j, 0, got}]; !ok {
+			sc.deferred[deferredResult{nil, j, 0, got}] = g
+		}
+		sc.mu.Unlock()
+		return
+	}
+	if got != j.want {
+		sc.reportJobDiff(j, got, g)
+	}
+}
+
+var jobKinds = []string{jobInterp, jobImport, jobSink, jobDebug}
+
+func reps(c *core.Ctx) int {
+	n := c.Pick(240, 2000)
+	if c.Race {
+		n /= 4
+	}
+	return n
+}
+
+func buildScenario(c *core.Ctx, stream string, idx int) *scen {
+	r := c.Rng(stream, idx)
+	sc := &scen{c: c, stream: stream, idx: idx, ifFor: stream != streamNoif, reps: reps(c), reported: map[string]bool{}}
+	if stream == streamCanary {
+		// the minimal witness of the grammar-table defect, kept as a fixed regression scenario
+		fixed := [][2]string{
+			{"if a == 1 {\n    b := 2\n}\n", "valid"},
+			{"x := {\"k\" : 1}\n", "valid"},
+			{"for i in range(1, 3) {\n    c := {1 : i}\n}\n", "valid"},
+			{"y := [{}, {1 : {2 : 3}}]\n", "valid"},
+		}
+		for k, f := range fixed {
+			sc.texts = append(sc.texts, &textCase{name: fmt.Sprintf("canary-%d.ecal", k), src: f[0], kind: f[1], ifFor: ifForRe.MatchString(f[0])})
+		}
+		g := []int{2, 2, 3, 4}[r.Intn(4)]
+		for i := 0; i < g; i++ {
+			sc.roles = append(sc.roles, role{kind: i % 3})
+		}
+		sc.reps /= 2
+		return sc
+	}
+	// importable files
+	files := map[string]string{}
+	var paths []string
+	lg := &tgen{r: r, ifFor: sc.ifFor}
+	for i := 0; i < 3; i++ {
+		p := fmt.Sprintf("lib/l%d.ecal", i)
+		files[p] = lg.lib(i)
+		paths = append(paths, p)
+	}
+	nTexts := r.Range(4, 14)
+	for k := 0; k < nTexts; k++ {
+		g := &tgen{r: r, ifFor: sc.ifFor && k%3 != 1, imports: paths}
+		src := g.program(r.Range(1, 5), r.Range(1, 3))
+		if sc.ifFor && k%3 == 0 && g.nGuard == 0 {
+			src = "if " + g.guardExpr(1) + " " + g.block(1, 0) + "\n" + src
+		}
+		if k%3 == 1 && g.nMap == 0 {
+			src += g.ident() + " := " + g.mapLit(2) + "\n"
+		}
+		kind := "valid"
+		if r.Chance(1, 4) {
+			src, kind = g.breakText(src)
+		}
+		if !sc.ifFor && ifForRe.MatchString(src) {
+			panic("c13 generator emitted if/for in a noif text: " + src)
+		}
+		sc.texts = append(sc.texts, &textCase{name: fmt.Sprintf("%s-%d-t%d.ecal", stream, idx, k), src: src, kind: kind,
+			ifFor: ifForRe.MatchString(src)})
+	}
+	g := []int{2, 2, 3, 4, 4, 6, 8, 8, 12, 16}[r.Intn(10)]
+	jg := &tgen{r: r, ifFor: sc.ifFor}
+	for i := 0; i < g; i++ {
+		// the first two goroutines always parse; the others parse or evaluate
+		if i >= 2 && r.Chance(2, 5) {
+			kind := jobKinds[r.Intn(len(jobKinds))]
+			j := makeJob(kind, jg, fmt.Sprintf("%s-%d-job%d", stream, idx, i), files, paths)
+			if !sc.ifFor && (ifForRe.MatchString(j.src) || ifForRe.MatchString(strings.Join(j.injects, " "))) {
+				panic("c13 generator emitted if/for in a noif job: " + j.src)
+			}
+			sc.jobs = append(sc.jobs, j)
+			sc.roles = append(sc.roles, role{kind: roleJob, job: j})
+		} else {
+			sc.roles = append(sc.roles, role{kind: r.Intn(3)})
+		}
+	}
+	if !sc.ifFor {
+		for _, f := range files {
+			if ifForRe.MatchString(f) {
+				panic("c13 generator emitted if/for in a noif library")
+			}
+		}
+	}
+	return sc
+}
+
+func (sc *scen) describe() string {
+	var b strings.Builder
+	fmt.Fprintf(&b, "%s scenario %d: %d goroutines, roles %v, %d parses per parsing goroutine; texts:\n", sc.stream, sc.idx, len(sc.roles), sc.roles, sc.reps)
+	for _, t := range sc.texts {
+		fmt.Fprintf(&b, "--- %s (%s)\n%s\n", t.name, t.kind, trunc(t.src, 350))
+	}
+	for _, j := range sc.jobs {
+		fmt.Fprintf(&b, "--- job %s\n", j.describe())
+	}
+	return b.String()
+}
+
+// parseOnce performs one parse in the given mode and renders the outcome.
+func (sc *scen) parseOnce(t *textCase, mode int, checkIDs bool) (res string, dup string) {
+	n := atomic.AddInt64(&sc.active, 1)
+	if n > 1 {
+		atomic.AddInt64(&sc.overlapped, 1)
+		for {
+			m := atomic.LoadInt64(&sc.maxActive)
+			if n <= m || atomic.CompareAndSwapInt64(&sc.maxActive, m, n) {
+				break
+			}
+		}
+	}
+	var ast *parser.ASTNode
+	var err error
+	var verr string
+	key, _, panicked := core.Guard(func() {
+		if mode == modeParse {
+			ast, err = parser.Parse(t.name, t.src)
+		} else {
+			ast, err = parser.ParseWithRuntime(t.name, t.src, sc.erp)
+		}
+		if mode == modeValidate && err == nil && ast != nil && ast.Runtime != nil {
+			verr = fmt.Sprintf("VALIDATE %v\n", ast.Runtime.Validate())
+		}
+	})
+	atomic.AddInt64(&sc.active, -1)
+	atomic.AddInt64(&sc.nParse, 1)
+	if panicked {
+		return "PANIC " + key + "\n", ""
+	}
+	var ids map[string]int
+	if checkIDs && mode != modeParse {
+		ids = map[string]int{}
+	}
+	res = renderResult(ast, err, ids) + verr
+	if err != nil {
+		atomic.AddInt64(&sc.nErrRes, 1)
+	} else {
+		atomic.AddInt64(&sc.nTreeRes, 1)
+	}
+	if verr != "" {
+		atomic.AddInt64(&sc.nValidate, 1)
+	}
+	if ids != nil {
+		atomic.AddInt64(&sc.nRtNodes, int64(len(ids)))
+		for id, k := range ids {
+			if k > 1 {
+				dup = fmt.Sprintf("instance id %s is carried by %d runtime components of one tree", id, k)
+				break
+			}
+		}
+	}
+	return res, dup
+}
+
+func (sc *scen) once(key string) bool {
+	sc.mu.Lock()
+	defer sc.mu.Unlock()
+	if sc.reported[key] {
+		return false
+	}
+	sc.reported[key] = true
+	return true
+}
+
+func (sc *scen) reportParseDiff(t *textCase, mode int, got string, g int) {
+	want := t.want[mode]
+	var key string
+	switch {
+	case strings.HasPrefix(got, "PANIC "):
+		key = strings.TrimSpace(strings.TrimPrefix(got, "PANIC "))
+	case sc.ifFor && strings.Contains(t.src, "{") && braceRelated(t.src, want, got):
+		key = "wrong-result:brace-meaning"
+	case isErrorResult(got) && !isErrorResult(want):
+		key = "wrong-result:parse-error-for-valid-text"
+	case !isErrorResult(got) && isErrorResult(want):
+		key = "wrong-result:parse-tree-for-invalid-text"
+	case isErrorResult(got):
+		key = "wrong-result:parse-different-error"
+	default:
+		key = "wrong-result:parse-different-tree"
+	}
+	if !sc.once(key) {
+		return
+	}
+	what := fmt.Sprintf("a concurrent %s of %q differs from the sequential result for the same text (%s)", modeNames[mode], t.name, firstDiff(want, got))
+	sc.c.Violation(key, what, sc.stream, sc.idx, map[string]interface{}{
+		"text": t.src, "name": t.name, "mode": modeNames[mode], "text_kind": t.kind,
+		"sequential": trunc(want, 1500), "concurrent": trunc(got, 1500),
+		"goroutine": g, "goroutines": len(sc.roles), "roles": fmt.Sprint(sc.roles),
+		"concurrent_if_for_parses": sc.ifFor,
+	})
+}
+
+func (sc *scen) reportJobDiff(j *evalJob, got string, g int) {
+	key := "wrong-result:eval-" + j.kind
+	if strings.HasPrefix(got, "PANIC ") {
+		key = strings.TrimSpace(strings.SplitN(strings.TrimPrefix(got, "PANIC "), "\n", 2)[0])
+	} else if sc.ifFor && strings.Count(got, "Parse error") > strings.Count(j.want, "Parse error") &&
+		(strings.Contains(got, "({)") || strings.Contains(got, "Unexpected term") || strings.Contains(got, "Unexpected end")) {
+		// a run-time parse failed although the same text parsed before: with
+		// if/for parses running concurrently this is the swapped '{' entry
+		key = "wrong-result:brace-meaning"
+	}
+	if !sc.once(key) {
+		return
+	}
+	what := fmt.Sprintf("a %s evaluation running next to concurrent parses differs from the same evaluation run alone (%s)", j.kind, firstDiff(j.want, got))
+	sc.c.Violation(key, what, sc.stream, sc.idx, map[string]interface{}{
+		"program": j.src, "injects": j.injects, "events": j.events, "files": j.files,
+		"sequential": trunc(j.want, 1500), "concurrent": trunc(got, 1500),
+		"goroutine": g, "goroutines": len(sc.roles), "roles": fmt.Sprint(sc.roles),
+		"concurrent_if_for_parses": sc.ifFor,
+	})
+}
+
+// leakyText: would a parse of this text leave the lexer goroutine blocked
+// (parse error with more than a look-ahead of tokens left)? Such texts are
+// parsed only a few times per scenario (the race runtime supports at most
+// 8128 live goroutines).
+func leakyText(t *textCase) bool {
+	l, p, ok := errorPosition(t.want[modeParse])
+	if !isErrorResult(t.want[modeParse]) {
+		return false
+	}
+	if !ok {
+		return true
+	}
+	after := 0
+	for _, tok := range parser.LexToList(t.name, t.src) {
+		if tok.Lline > l || (tok.Lline == l && tok.Lpos > p) {
+			after++
+		}
+	}
+	return after > 2
+}
+
+func (sc *scen) baseline() {
+	saved := []int64{sc.nParse, sc.nErrRes, sc.nTreeRes, sc.nValidate, sc.overlapped, sc.maxActive}
+	for _, t := range sc.texts {
+		for m := 0; m < 3; m++ {
+			t.want[m], _ = sc.parseOnce(t, m, false)
+		}
+		t.leaky = leakyText(t)
+	}
+	kept := sc.jobs[:0]
+	for _, j := range sc.jobs {
+		w := j.newWorker(1)
+		out, incon := w.run()
+		w.close()
+		if incon != "" {
+			sc.c.Inconclusive("evaluation job produced no sequential result: "+incon, sc.stream, sc.idx, j.describe())
+			j.dropped = true
+			continue
+		}
+		j.want = out
+		kept = append(kept, j)
+	}
+	sc.jobs = kept
+	sc.nParse, sc.nErrRes, sc.nTreeRes, sc.nValidate, sc.overlapped, sc.maxActive = saved[0], saved[1], saved[2], saved[3], saved[4], saved[5]
+}
+
+func (sc *scen) runRole(g int, ro role, r *core.Rand) {
+	if ro.kind == roleJob {
+		j := ro.job
+		if j.dropped {
+			return
+		}
+		n := sc.reps / 12
+		ki := 0
+		switch j.kind {
+		case jobImport:
+			ki = 1
+		case jobSink:
+			n, ki = sc.reps/60, 2
+		case jobDebug:
+			n, ki = sc.reps/60, 3
+			if n > 12 {
+				n = 12 // every inject leaves a cron goroutine of the interpreter behind
+			}
+		}
+		if n < 1 {
+			n = 1
+		}
+		w := j.newWorker(4)
+		defer w.close()
+		for i := 0; i < n; i++ {
+			got, incon := w.run()
+			atomic.AddInt64(&sc.nJobRuns[ki], 1)
+			if incon != "" {
+				sc.c.Inconclusive("evaluation job produced no result: "+incon, sc.stream, sc.idx, j.describe())
+				return
+			}
+			if j.kind == jobDebug {
+				atomic.AddInt64(&sc.nInjects, int64(len(j.injects)))
+			}
+			sc.checkJob(j, got, g)
+		}
+		return
+	}
+	for i := 0; i < sc.reps; i++ {
+		t := sc.texts[r.Intn(len(sc.texts))]
+		if t.leaky && atomic.AddInt64(&sc.leakBudget, -1) < 0 {
+			continue
+		}
+		got, dup := sc.parseOnce(t, ro.kind, i%4 == 0)
+		sc.checkParse(t, ro.kind, got, g)
+		if dup != "" && sc.once("wrong-result:duplicate-instance-id") {
+			sc.c.Violation("wrong-result:duplicate-instance-id", "runtime components of one concurrently parsed tree share an instance id (sequential parses give every component its own): "+dup,
+				sc.stream, sc.idx, map[string]interface{}{"text": t.src, "name": t.name, "goroutines": len(sc.roles)})
+		}
+	}
+}
+
+func (sc *scen) run() {
+	c := sc.c
+	sc.erp = interpreter.NewECALRuntimeProvider("c13-shared", &util.MemoryImportLocator{Files: map[string]string{}}, &memLog{})
+	defer stopCron(sc.erp)
+	if !sc.cold {
+		sc.baseline()
+	}
+	sc.leakBudget = 8
+	rngs := make([]*core.Rand, len(sc.roles))
+	base := c.Rng(sc.stream+"/goroutines", sc.idx)
+	for i := range rngs {
+		rngs[i] = core.NewRand(base.U64())
+	}
+	start := make(chan struct{})
+	var wg sync.WaitGroup
+	for g, ro := range sc.roles {
+		wg.Add(1)
+		go func(g int, ro role) {
+			defer wg.Done()
+			<-start
+			sc.runRole(g, ro, rngs[g])
+		}(g, ro)
+	}
+	close(start)
+	wg.Wait()
+	if sc.cold {
+		sc.baseline()
+		sc.cold = false
+		for d, g := range sc.deferred {
+			if d.job != nil {
+				if !d.job.dropped && d.got != d.job.want {
+					sc.reportJobDiff(d.job, d.got, g)
+				}
+			} else if d.got != d.text.want[d.mode] {
+				sc.reportParseDiff(d.text, d.mode, d.got, g)
+			}
+		}
+		c.Event("scenarios.cold-start(concurrent-phase-before-sequential)", 1)
+	}
+
+	// evidence
+	c.Event("scenarios."+sc.stream, 1)
+	c.Event(fmt.Sprintf("scenarios.goroutines=%02d", len(sc.roles)), 1)
+	if sc.maxActive >= 2 {
+		c.Event("scenarios.with-overlapping-parses", 1)
+	}
+	c.Event("parse.concurrent-calls", sc.nParse)
+	c.Event("parse.calls-started-while-another-was-active", sc.overlapped)
+	c.Event("parse.results.error", sc.nErrRes)
+	c.Event("parse.results.tree", sc.nTreeRes)
+	c.Event("validate.calls", sc.nValidate)
+	c.Event("runtime-components.checked-for-distinct-ids", sc.nRtNodes)
+	for i, k := range jobKinds {
+		if sc.nJobRuns[i] > 0 {
+			c.Event("eval."+k+".runs", sc.nJobRuns[i])
+		}
+	}
+	if sc.nInjects > 0 {
+		c.Event("debugger.inject-calls", sc.nInjects)
+	}
+	for _, t := range sc.texts {
+		c.Event("texts.total", 1)
+		if t.ifFor {
+			c.Event("texts.with-if-or-for", 1)
+		}
+		if strings.Contains(t.src, "{") {
+			c.Event("texts.with-brace", 1)
+		}
+		if isErrorResult(t.want[0]) {
+			c.Event("texts.sequential-result-is-error", 1)
+		}
+		if t.leaky {
+			c.Event("texts.error-far-from-end(parsed-at-most-8x)", 1)
+		}
+		if sc.maxActive >= 2 {
+			for m := 0; m < 3; m++ {
+				c.Nontrivial(core.Hash64(fmt.Sprintf("%d|%s", m, t.src)))
+			}
+		}
+	}
+	for _, j := range sc.jobs {
+		if sc.maxActive >= 2 {
+			c.NontrivialKey(j.kind + "|" + j.src + "|" + strings.Join(j.injects, "|"))
+		}
+		c.Sample("job-"+j.kind+"-"+sc.stream, map[string]interface{}{"program": j.src, "injects": j.injects, "events": j.events, "sequential_result": trunc(j.want, 600)})
+	}
+	if len(sc.texts) > 0 {
+		t := sc.texts[len(sc.texts)/2]
+		c.Sample("text-"+sc.stream, map[string]interface{}{"text": t.src, "kind": t.kind, "goroutines": len(sc.roles), "roles": fmt.Sprint(sc.roles),
+			"sequential_result": trunc(t.want[modeRuntime], 500)})
+	}
+}
+
+// probes: texts whose sequential result is taken when the process starts and
+// again after every scenario (all goroutines joined). A difference means the
+// parser's package-level state did not return to its initial value.
+var probes = [][2]string{
+	{"probe-map", "x := {1 : 2}\n"},
+	{"probe-if", "if a { b := {3 : 4} }\n"},
+	{"probe-for", "for i in c { d := 1 }\n"},
+	{"probe-func", "func f() { return {} }\n"},
+}
+
+func probeNow() []string {
+	res := make([]string, len(probes))
+	for i, p := range probes {
+		key, _, panicked := core.Guard(func() {
+			ast, err := parser.Parse(p[0], p[1])
+			res[i] = renderResult(ast, err, nil)
+		})
+		if panicked {
+			res[i] = "PANIC " + key
+		}
+	}
+	return res
+}
+
 // Run is the check.
 func Run(c *core.Ctx) {
+	c.Note("rule", "scenario = seeded set of 4..14 generated program texts (assignments, expressions, list/map literals incl. nested and empty ones, func/sink/try/mutex blocks, imports from a memory locator, comments, interpolated strings; mixed stream additionally if/elif/else and for with nested guards; 1 in 4 texts carries an injected syntax error: dropped closing brace, stray token, unclosed string, unfinished map, error in the middle) plus 3 importable files; sequential results first (in the first scenario of each process: afterwards, so that lazily initialised state is first touched concurrently), then 2..16 goroutines: parsing goroutines (Parse / ParseWithRuntime on one shared provider / +Validate, N parses each over the texts) next to evaluation goroutines (interpolating strings, importing files, sinks on pool workers fed with 8..24 events, debugger breakpoint + inject loop). canary stream = 4 fixed texts (if, for, map literals), 2..4 parsing goroutines. noif stream: no if/for anywhere. non-trivial/distinct = distinct (text, parse mode) pairs and distinct evaluation jobs of scenarios in which at least two parses were observed in flight simultaneously")
+	var probeWant []string // taken after the first (cold) scenario of the process
+	first := true
+
+	nNoif := c.Pick(96, 192)
+	nCanary := c.Pick(32, 64)
+	nMixed := c.Pick(96, 192)
+	type plan struct {
+		stream string
+		n      int
+		parity int
+	}
+	plans := []plan{{streamNoif, nNoif, 0}, {streamCanary, nCanary, 1}, {streamMixed, nMixed, 1}}
+
+	// if/for scenarios that killed an earlier attempt of this batch (the driver
+	// passes them as --skip): they are mine by index but not offered to me
+	deaths := 0
+	if !c.Replay() {
+		for _, p := range plans[1:] {
+			for idx := p.parity; idx < 2*p.n; idx += 2 {
+				if (c.NBatch <= 1 || idx%c.NBatch == c.Batch) && !c.Mine(p.stream, idx) {
+					deaths++
+				}
+			}
+		}
+	}
+	poisoned := false
+	notRun := 0
+	for _, p := range plans {
+		for idx := p.parity; idx < 2*p.n; idx += 2 {
+			if !c.Mine(p.stream, idx) {
+				continue
+			}
+			if poisoned || (p.parity == 1 && deaths >= maxDeaths && !c.Replay()) {
+				notRun++
+				continue
+			}
+			c.Take(p.stream, idx)
+			sc := buildScenario(c, p.stream, idx)
+			sc.cold, sc.deferred = first, map[deferredResult]int{}
+			c.Begin(0, p.stream, idx, sc.describe())
+			t0 := time.Now()
+			sc.run()
+			if os.Getenv("VH_C13_TIMING") != "" {
+				fmt.Fprintf(os.Stderr, "%s:%d %v roles=%v\n", p.stream, idx, time.Since(t0), sc.roles)
+			}
+			c.End(0)
+			got := probeNow()
+			if first {
+				// the probes are valid programs: whatever ran before, a
+				// sequential parse of them yields a tree
+				first = false
+				probeWant = make([]string, len(got))
+				for i := range got {
+					probeWant[i] = got[i]
+					if isErrorResult(got[i]) || !hasTree(got[i]) {
+						probeWant[i] = "TREE (expected: the probe is a valid program)\n"
+					}
+				}
+			}
+			for i := range got {
+				if got[i] != probeWant[i] {
+					key := "sticky:parser-state"
+					if braceRelated(probes[i][1], probeWant[i], got[i]) {
+						key = "sticky:brace-meaning"
+					}
+					c.Violation(key, fmt.Sprintf("after all parses of the scenario have returned, a sequential parse of %q does not give the result it gave before the scenario (%s): package-level parser state stayed modified", probes[i][1], firstDiff(probeWant[i], got[i])),
+						p.stream, idx, map[string]interface{}{"probe": probes[i][1], "before": probeWant[i], "now": got[i], "scenario": trunc(sc.describe(), 3000)})
+					poisoned = true
+					break
+				}
+			}
+		}
+	}
+	if notRun > 0 {
+		why := fmt.Sprintf("%d if/for scenarios of this batch already ended in a process death", deaths)
+		if poisoned {
+			why = "the parser state of this process stayed corrupted after a scenario (reported as sticky:*)"
+		}
+		c.Event("scenarios.not-run", int64(notRun))
+		c.Inconclusive(fmt.Sprintf("%d scenarios of batch %d were not run: %s", notRun, c.Batch, why), "batch", c.Batch, nil)
+	}
+	c.Event("goroutines.alive-at-end(summed-over-batches)", int64(runtime.NumGoroutine()))
 }
